@@ -569,6 +569,20 @@ pub fn c04_snips() -> Vec<Snip> {
             out.push(Snip::owned(format!("pure-read-mutable-after-shadowing-scope:{}", sn), Kind::SPure, format!("{}\nzz :: m", sc.replace("{D}", "m :: 5")), format!("{}\nzz :: k", sc.replace("{D}", "k :: 5"))));
         }
     }
+    // the shadowing declaration is the binder of the construct itself (a case binding, a closure parameter, both at once)
+    // rather than a statement inside it; after the construct the global is meant again
+    let binders: [(&str, &str); 5] = [
+        ("case-binding-first-arm", "case (E.A 1) do\n A {N} -> do end\n else do end\nend"),
+        ("case-binding-arm-not-taken", "case E.B do\n A {N} -> do end\n else do end\nend"),
+        ("case-binding-with-body", "case (E.A 1) do\n A {N} -> do\n  zy :: {N}\n end\n else do end\nend"),
+        ("closure-parameter", "hh :: pu {N}: int -> int\n {N}\n end"),
+        ("case-binding-inside-branch", "if k == 7 do\n case (E.A 1) do\n  A {N} -> do end\n  else do end\n end\nend"),
+    ];
+    for (bn, bc) in binders {
+        out.push(Snip::owned(format!("pure-read-mutable-after-binder-of-that-name:{}", bn), Kind::SPure, format!("{}\nzz :: m", bc.replace("{N}", "m")), format!("{}\nzz :: k", bc.replace("{N}", "k"))));
+        out.push(Snip::owned(format!("pure-assign-global-after-binder-of-that-name:{}", bn), Kind::SPure, format!("{}\nm = 1", bc.replace("{N}", "m")), format!("{}\nzz :: k", bc.replace("{N}", "k"))));
+        out.push(Snip::owned(format!("assign-global-constant-after-binder-of-that-name:{}", bn), Kind::S, format!("{}\nk = 3", bc.replace("{N}", "k")), format!("{}\nm = 3", bc.replace("{N}", "m"))));
+    }
     // a mutable variable that holds a (pure) function is still a mutable variable
     out.push(Snip::owned("mutable-function-variable:called".into(), Kind::SPure, "zz :: mfp(1)".into(), "zz :: idp(1)".into()));
     out.push(Snip::owned("mutable-function-variable:read".into(), Kind::SPure, "zz :: mfp".into(), "zz :: idp".into()));
